@@ -153,10 +153,37 @@ fn run_universe(base: u64, only: Option<&str>) -> u64 {
     cases
 }
 
+// the validating constructor: every list of up to three ranges with bounds in 0..=6 (zero, inverted, overlapping, touching,
+// unsorted included); accepted exactly when every range is valid and each starts above the end of its predecessor,
+// and an accepted value behaves as the set of its heights
+fn run_from_vec() -> u64 {
+    let mut cases = 0u64;
+    let bounds: Vec<(u64, u64)> = (0..=6u64).flat_map(|a| (0..=6u64).map(move |b| (a, b))).collect();
+    let mut lists: Vec<Vec<(u64, u64)>> = vec![vec![]];
+    for a in &bounds { lists.push(vec![*a]); }
+    for a in &bounds { for b in &bounds { lists.push(vec![*a, *b]); } }
+    for a in bounds.iter().step_by(3) { for b in bounds.iter().step_by(2) { for c in bounds.iter().step_by(5) { lists.push(vec![*a, *b, *c]); } } }
+    for l in lists {
+        cases += 1;
+        let v: Vec<BlockRange> = l.iter().map(|(a, b)| *a..=*b).collect();
+        let ok = l.iter().all(|(a, b)| *a >= 1 && a <= b) && l.windows(2).all(|w| w[1].0 > w[0].1);
+        match BlockRanges::from_vec(v.clone().into()) {
+            Ok(r) => {
+                if !ok { fail("C17", format!("from_vec accepted {l:?}, which is not a list of valid, increasing, pairwise disjoint ranges")); }
+                let want: BTreeSet<u64> = l.iter().flat_map(|(a, b)| *a..=*b).collect();
+                if to_set(&r) != want || r.len() != want.len() as u64 { fail("C17", format!("from_vec({l:?}) has len {} and heights {:?}", r.len(), to_set(&r))); }
+            }
+            Err(_) => if ok { fail("C17", format!("from_vec rejected the valid list {l:?}")); },
+        }
+    }
+    cases
+}
+
 #[test]
 fn verif_enum_block_ranges() {
     let only = std::env::var("VERIF_ONLY").ok();
     let a = run_universe(1, only.as_deref());
     let b = run_universe(u64::MAX - (N - 1), only.as_deref());
-    println!("ENUM-OK cases={}", a + b);
+    let c = run_from_vec();
+    println!("ENUM-OK cases={}", a + b + c);
 }
